@@ -95,6 +95,12 @@ inductive Op where
   | clearParams
   | install (f : String)
   | uninstall (f : String)
+  /-- process-wide `XalanTransformer::installExternalFunctionGlobal` / `uninstall…Global` (static) -/
+  | ginstall (f : String)
+  | guninstall (f : String)
+  /-- a configuration option with a public setter (setIndent, setOutputEncoding, setEscapeURLs, setOmitMETATag,
+  setProblemListener, add/removeTraceListener): sticky by contract -/
+  | config (name value : String)
   | destroySheet (slot : Nat)
   | destroySource (slot : Nat)
   /-- transform with a compiled stylesheet and a parsed source; `mid` = the member state at the moment the
@@ -107,10 +113,13 @@ structure Tx where
   mem : State
   params : ParamMap
   funcs : List String
+  /-- process-wide function table (not owned by the transformer: a new transformer sees it too) -/
+  gfuncs : List String
+  config : List (String × String)
   sheets : List (Nat × String)
   sources : List (Nat × String)
 
-def Tx.init : Tx := ⟨ofList freshVals, [], [], [], []⟩
+def Tx.init : Tx := ⟨ofList freshVals, [], [], [], [], [], []⟩
 
 /-- roles a running transformation may write -/
 def Role.volatile : Role → Bool
@@ -133,6 +142,8 @@ structure Obs where
   pre : List Val
   params : List (String × PVal)
   funcs : List String
+  gfuncs : List String
+  config : List (String × String)
   sheet : Option String
   source : Option String
 deriving DecidableEq, Repr
@@ -149,6 +160,8 @@ def observe (t : Tx) (sheet source : Option String) : Obs :=
   { pre := view (run setup t.mem)
     params := effectiveAll t.params
     funcs := t.funcs
+    gfuncs := t.gfuncs
+    config := t.config
     sheet := sheet
     source := source }
 
@@ -167,6 +180,9 @@ def step (t : Tx) : Op → Tx × Reply
   | .clearParams => ({ t with params := [] }, .ok)
   | .install f => ({ t with funcs := f :: t.funcs.filter (· != f) }, .ok)
   | .uninstall f => ({ t with funcs := t.funcs.filter (· != f) }, .ok)
+  | .ginstall f => ({ t with gfuncs := f :: t.gfuncs.filter (· != f) }, .ok)
+  | .guninstall f => ({ t with gfuncs := t.gfuncs.filter (· != f) }, .ok)
+  | .config n v => ({ t with config := putA t.config n v }, .ok)
   | .destroySheet slot =>
     match t.sheets.lookup slot with
     | some _ => ({ t with sheets := eraseSlot t.sheets slot }, .rc 0)
@@ -196,12 +212,14 @@ transformation is answered from a *freshly constructed* member state. -/
 structure Spec where
   params : ParamMap
   funcs : List String
+  gfuncs : List String
+  config : List (String × String)
   sheets : List (Nat × String)
   sources : List (Nat × String)
 
-def Spec.init : Spec := ⟨[], [], [], []⟩
+def Spec.init : Spec := ⟨[], [], [], [], [], []⟩
 
-def Spec.fresh (s : Spec) : Tx := { Tx.init with params := s.params, funcs := s.funcs, sheets := s.sheets, sources := s.sources }
+def Spec.fresh (s : Spec) : Tx := { Tx.init with params := s.params, funcs := s.funcs, gfuncs := s.gfuncs, config := s.config, sheets := s.sheets, sources := s.sources }
 
 def Spec.step (s : Spec) : Op → Spec × Reply
   | .transform sheet src _ =>
@@ -211,7 +229,7 @@ def Spec.step (s : Spec) : Op → Spec × Reply
   | .transformSrc sheet src _ => (s, .obs (observe s.fresh (some sheet) (some src)))
   | op =>
     let (t, r) := XalanModel.C06.step s.fresh op
-    (⟨t.params, t.funcs, t.sheets, t.sources⟩, r)
+    (⟨t.params, t.funcs, t.gfuncs, t.config, t.sheets, t.sources⟩, r)
 
 def Spec.runOps : Spec → List Op → Spec × List Reply
   | s, [] => (s, [])
